@@ -286,6 +286,19 @@ func genWellFormed(t *rapid.T, wt int) []byte {
 	}
 }
 
+// genSkipRandom: arbitrary bytes, half of the time starting with a boundary
+// varint (huge / over-long lengths and counts) optionally followed by a second one.
+func genSkipRandom(t *rapid.T) []byte {
+	if rapid.Bool().Draw(t, "plain") {
+		return rapid.SliceOfN(rapid.Byte(), 0, 24).Draw(t, "random")
+	}
+	b := append([]byte{}, hostileVarints[rapid.IntRange(0, len(hostileVarints)-1).Draw(t, "hv1")]...)
+	if rapid.Bool().Draw(t, "second") {
+		b = append(b, hostileVarints[rapid.IntRange(0, len(hostileVarints)-1).Draw(t, "hv2")]...)
+	}
+	return append(b, rapid.SliceOfN(rapid.Byte(), 0, 12).Draw(t, "tail2")...)
+}
+
 func pickInt(t *rapid.T, label string, xs []int) int {
 	return xs[rapid.IntRange(0, len(xs)-1).Draw(t, label)]
 }
@@ -306,7 +319,7 @@ var c18Skip = &vh.Prop[c18SkipCase]{
 		return c18SkipCase{
 			WT: wt, Field: genWellFormed(t, wt),
 			Tail:   rapid.SliceOfN(rapid.Byte(), 0, 6).Draw(t, "tail"),
-			Random: rapid.SliceOfN(rapid.Byte(), 0, 24).Draw(t, "random"),
+			Random: genSkipRandom(t),
 		}
 	},
 	Run: func(c c18SkipCase, x *vh.Ctx) *vh.Failure {
